@@ -190,6 +190,7 @@ func profileFor(prop, tier string) *Profile {
 		p.CommitCheck = true
 	case "C10":
 		p.GhostTable = true
+		p.OpWeights[OpUnlocked] = 4
 		p.BulkOneIn = 60
 		p.TablesMin, p.TablesMax = 2, 6
 		p.WritersMin, p.WritersMax = 2, 6
